@@ -222,7 +222,13 @@ func (h *handler) serve(clientCtx context.Context) error {
 			for {
 				select {
 				case args := <-h.unaryRpcChan:
-					h.writeChan <- h.processUnaryRpc(clientCtx, args.info, args.md, args.rpc)
+					resp := h.processUnaryRpc(clientCtx, args.info, args.md, args.rpc)
+					select {
+					case h.writeChan <- resp:
+					case <-h.ctx.Done():
+						// the writer is gone: nobody will take the reply
+						return
+					}
 				case <-unaryRpcCtx.Done():
 					return
 				}
